@@ -17,7 +17,7 @@ def main(run: Run):
     run.assumptions += BASE_ASSUMPTIONS_L2
     run.functions["amaranth_soc.wishbone.bus.Arbiter.elaborate"] = "per-configuration (bounded: N, features, granularities), all inputs/states/time"
     run.functions["amaranth_soc.wishbone.bus.Arbiter.add"] = "exercised (constructor refusals counted)"
-    run_configs(run, __name__, cfgs)
+    run_configs(run, __name__, cfgs, must_accept=True)
     from ..lean_check import status as _lean_status
     run.extra["lean_lemmas"] = {"files": _lean_status(), "used": "Arbiter.lean: rank_decreases, served_within (all N, on the specification next-owner function)"}
     for _f, _st in run.extra["lean_lemmas"]["files"].items():
